@@ -152,7 +152,7 @@ func genC19(c *Ctx) {
 	if c.Thorough() {
 		base = 100
 	}
-	patterns := []string{"pingpong", "oneway", "forged-flood", "crossing", "error-reake", "answers-lost", "answers-late", "bad-fragment-flood", "plaintext-flood"}
+	patterns := []string{"pingpong", "oneway", "listen-heartbeat", "forged-flood", "crossing", "error-reake", "answers-lost", "answers-late", "bad-fragment-flood", "plaintext-flood"}
 	for _, pat := range patterns {
 		var sizes [][]int
 		for _, mult := range []int{1, 2, 4} {
@@ -184,6 +184,17 @@ func genC19(c *Ctx) {
 					o := s.Send(1, []byte("ow"))
 					lastLen = len(o[len(o)-1])
 					s.Pump(1, 2, 10)
+				case "listen-heartbeat":
+					// the peer writes once a minute or so, we only listen: what goes back are heartbeats (sent by Receive
+					// itself), which acknowledge keys, so both sides keep rotating; at the end we write one real message
+					s.tick(70)
+					s.Send(1, []byte("lh"))
+					s.Pump(1, 2, 10)
+					if r == n-1 {
+						o := s.Send(2, []byte("finally an answer"))
+						lastLen = len(o[len(o)-1])
+						s.Pump(1, 2, 10)
+					}
 				case "forged-flood":
 					o := s.Send(1, []byte("ff"))
 					lastLen = len(o[len(o)-1])
